@@ -262,6 +262,8 @@ def derived(K4):
     return [
         ("add", d1, d2), ("add", d2, d1), ("add", d1, d3), ("add", d3, d1),
         ("or", K4[0], K4[2]), ("or", ("or", K4[0], K4[2]), NONE), ("or", K4[1], ("any", (K4[2], NONE))),
+        # the bare schema.any as an operand of | (it accepts everything, so does the union)
+        ("or", ("any", None), K4[0]), ("or", K4[0], ("any", None)), ("or", ("or", ("any", None), K4[0]), NONE),
         # a union on the right-hand side too (both operands already declared unions)
         ("or", ("or", K4[0], K4[2]), ("or", NONE, BOOL)), ("or", ("any", (K4[0], K4[2])), ("any", (NONE,))),
         ("or", ("or", K4[0], K4[2]), ("any", (("any", (NONE, BOOL)), S("bytes")))),
